@@ -719,6 +719,11 @@ class PrefixedSubAppResource(PrefixResource):
     def _add_prefix_to_resources(self, prefix: str) -> None:
         router = self._app.router
         for resource in router.resources():
+            if isinstance(resource, MatchedSubAppResource):
+                # Domain sub-apps are never indexed (see register_resource),
+                # so there is nothing to unindex: only pass the prefix on.
+                resource.add_prefix(prefix)
+                continue
             # Since the canonical path of a resource is about
             # to change, we need to unindex it and then reindex
             router.unindex_resource(resource)
